@@ -13,7 +13,7 @@ THEOREMS = ['Pysmi.Pins.SkelC04.pin_pysnmpGenCode', 'Pysmi.Pysnmp.C04_sort_perm'
             'Pysmi.Pysnmp.C04_imports_expand', 'Pysmi.Generated.Pysnmp.C04_exported_classes', 'Pysmi.Generated.Pysnmp.C04_export_filter_complete',
             'Pysmi.Generated.Pysnmp.pin_smiObjects', 'Pysmi.Generated.Text.C04_setter_keys', 'Pysmi.Generated.Text.C04_status_written',
             'Pysmi.Symtab.C04_parents_before', 'Pysmi.Symtab.C04_declared_parent_earlier', 'Pysmi.Symtab.C04_before_survives_filter',
-            'Pysmi.Generated.Pysnmp.C04_types_one_pass']
+            'Pysmi.Generated.Pysnmp.C04_types_one_pass', 'Pysmi.Generated.Pysnmp.C04_augment_after_objects']
 TECHNIQUE = ('Lean 4 theorems about a model of the pure steps of PySnmpCodeGen.genCode (SMI_OBJECTS expansion of imports, dotted OID -> '
              'tuple, stable sort by OID: permutation, sortedness, stability, round trip) and kernel-decided facts about the exported-class '
              'tuple extracted from the template on every run; the emitted Python itself is validated by execution: every generated module is '
@@ -188,6 +188,10 @@ def check_set(ctx, obs):
                     fail('object-oid', '%s::%s has OID %r in the pysnmp module, the text defines %s' % (mn, name, d.get('oid'), t['oid']))
                 if rec.get('oid') and d.get('oid') is not None and '.'.join(map(str, d['oid'])) != rec['oid']:
                     fail('json-disagrees', '%s::%s: OID %r (pysnmp) vs %s (JSON)' % (mn, name, d.get('oid'), rec.get('oid')))
+            if kind == 'moduleIdentity' and rec.get('lastupdated') is not None:
+                lu = d['calls'].get('setLastUpdated')
+                if not lu or lu[-1][0] != rec['lastupdated']:
+                    fail('json-disagrees', '%s::%s: LAST-UPDATED %r (pysnmp) vs %r (JSON)' % (mn, name, lu and lu[-1][0], rec['lastupdated']))
             if kind == 'objectType':
                 acc = d['calls'].get('setMaxAccess')
                 default_ok = not acc and t.get('nodetype') in ('table', 'row') and rec.get('maxaccess') == 'not-accessible'
@@ -296,6 +300,14 @@ def run(ctx):
         check_set(ctx, obs)
         if i % 3 == 0:
             steps_correspondence(ctx, obs, reqs, metas)
+    # directed sets: import lists of every length from another generated module, the imported symbol used by name
+    for label, texts in directed_sets():
+        res.case(('directed', label), True)
+        res.count('directed-sets')
+        r = replay({'input': {'texts': texts}})
+        if r['fails']:
+            res.oracle_failures.append({'key': 'pysnmp-exec', 'what': 'directed set %s: %s' % (label, '; '.join(map(str, r['what']))[:300]),
+                                        'input': {'texts': texts}})
     # BITS objects with a DEFVAL (the shared generator leaves them out because of the recorded defect)
     for i in range(2 if ctx.tier == 'quick' else 10):
         r = random.Random(base + 70000 + i)
@@ -353,6 +365,32 @@ def run(ctx):
                 res.corr_failures.append({'what': 'expanded imports of %s differ from Model.Pysnmp.expandImports' % m2, 'module': mn,
                                           'impl': impl_syms, 'model': out.get('expanded')})
     res.sample({'text': list(obs['texts'].values())[0][:1200]})
+
+
+def directed_sets():
+    """(label, texts): module B imports k = 1, 2, 3 symbols from module A and uses each by its name (a type as SYNTAX and
+    as base of a local type, a node as OID parent, a row as AUGMENTS target)"""
+    a = ('ACME-DA-MIB DEFINITIONS ::= BEGIN IMPORTS OBJECT-TYPE, Integer32, enterprises FROM SNMPv2-SMI TEXTUAL-CONVENTION FROM SNMPv2-TC;\n'
+         'acmeDaRoot OBJECT IDENTIFIER ::= { enterprises 81 }\n'
+         'AcmeDaTc ::= TEXTUAL-CONVENTION STATUS current DESCRIPTION "t" SYNTAX Integer32 (0..9)\n'
+         'AcmeDaPlain ::= Integer32 (0..99)\n'
+         'acmeDaTable OBJECT-TYPE SYNTAX SEQUENCE OF AcmeDaEntry MAX-ACCESS not-accessible STATUS current DESCRIPTION "t" ::= { acmeDaRoot 1 }\n'
+         'acmeDaEntry OBJECT-TYPE SYNTAX AcmeDaEntry MAX-ACCESS not-accessible STATUS current DESCRIPTION "e" INDEX { acmeDaIdx } ::= { acmeDaTable 1 }\n'
+         'AcmeDaEntry ::= SEQUENCE { acmeDaIdx Integer32 }\n'
+         'acmeDaIdx OBJECT-TYPE SYNTAX Integer32 MAX-ACCESS not-accessible STATUS current DESCRIPTION "c" ::= { acmeDaEntry 1 }\nEND\n')
+    uses = {
+        'AcmeDaTc': 'acmeDbObj OBJECT-TYPE SYNTAX AcmeDaTc MAX-ACCESS read-only STATUS current DESCRIPTION "o" ::= { enterprises 82 }\n',
+        'AcmeDaPlain': 'AcmeDbLocal ::= AcmeDaPlain (0..5)\nacmeDbObj2 OBJECT-TYPE SYNTAX AcmeDbLocal MAX-ACCESS read-only STATUS current DESCRIPTION "o" ::= { enterprises 83 }\n',
+        'acmeDaRoot': 'acmeDbNode OBJECT IDENTIFIER ::= { acmeDaRoot 7 }\n',
+        'acmeDaEntry': ('acmeDbTable OBJECT-TYPE SYNTAX SEQUENCE OF AcmeDbEntry MAX-ACCESS not-accessible STATUS current DESCRIPTION "t" ::= { enterprises 84 }\n'
+                        'acmeDbEntry OBJECT-TYPE SYNTAX AcmeDbEntry MAX-ACCESS not-accessible STATUS current DESCRIPTION "e" AUGMENTS { acmeDaEntry } ::= { acmeDbTable 1 }\n'
+                        'AcmeDbEntry ::= SEQUENCE { acmeDbCol Integer32 }\n'
+                        'acmeDbCol OBJECT-TYPE SYNTAX Integer32 MAX-ACCESS read-only STATUS current DESCRIPTION "c" ::= { acmeDbEntry 1 }\n'),
+    }
+    for picked in (['AcmeDaTc'], ['AcmeDaPlain'], ['acmeDaRoot'], ['acmeDaEntry'], ['AcmeDaTc', 'acmeDaRoot'], ['AcmeDaPlain', 'acmeDaEntry', 'AcmeDaTc']):
+        b = ('ACME-DB-MIB DEFINITIONS ::= BEGIN IMPORTS OBJECT-TYPE, Integer32, enterprises FROM SNMPv2-SMI %s FROM ACME-DA-MIB;\n' % ', '.join(picked)
+             + ''.join(uses[p] for p in picked) + 'END\n')
+        yield 'imports ' + '+'.join(picked), {'ACME-DA-MIB': a, 'ACME-DB-MIB': b}
 
 
 def run_texts(g, texts, seed):
